@@ -13,7 +13,7 @@ RULE = ('Base documents: fixtures, generated valid documents, documents with 1-4
         'acknowledgement are identical for the original and every re-encoding. non-trivial = distinct (document, encoding) pairs where the document has >=1 error.')
 ASSUMPTIONS = ['message strings and HTML are not compared (they legitimately contain delimiters)', 'source line numbers are compared as segment ordinals, which re-encoding preserves',
                'acknowledgement envelope lines (ISA/GS/ST/SE/GE/IEA, which carry timestamps and generated control numbers) are excluded']
-REQUIRED_COUNTERS = ['bases:with-data-less-segment', 'bases:with-empty-or-blank-segment', 'bases:with-trailing-separator-or-leading-blank', 'bases:longer-than-one-read-buffer', 'bases', 'bases:with-errors', 'bases:valid', 'encodings', 'encodings:control-char-delimiter', 'encodings:eol:', 'encodings:eol:\\r\\n', 'encodings:eol:\\n', 'encodings:eol:mixed']
+REQUIRED_COUNTERS = ['bases:later-isa-not-106-characters', 'bases:with-data-less-segment', 'bases:with-empty-or-blank-segment', 'bases:with-trailing-separator-or-leading-blank', 'bases:longer-than-one-read-buffer', 'bases', 'bases:with-errors', 'bases:valid', 'encodings', 'encodings:control-char-delimiter', 'encodings:eol:', 'encodings:eol:\\r\\n', 'encodings:eol:\\n', 'encodings:eol:mixed']
 MIN_CASES = {'quick': 900, 'thorough': 30000}
 WATCHDOG_S = {'quick': 1200, 'thorough': 7200}
 
@@ -137,6 +137,14 @@ def run(ctx):
             if f is not None:
                 doc = f.doc
                 kinds.append(f.kind)
+        isas = [r_ for r_ in doc.recs if r_.node.id == 'ISA']
+        if len(isas) >= 2 and rng.random() < 0.5:
+            # a later interchange header that is not 106 characters long (ISA13 one digit short / one long): only the first header is fixed-width
+            doc = faults.clone(doc)
+            r2 = [r_ for r_ in doc.recs if r_.node.id == 'ISA'][1]
+            r2.vals[12] = r2.vals[12][:-1] if rng.random() < 0.5 else r2.vals[12] + '7'
+            kinds.append('later-isa-not-106-characters')
+            ctx.count('bases:later-isa-not-106-characters')
         text = doc.text()
         if rng.random() < 0.25:
             text, names = mutate.mutate(rng, text)
